@@ -70,6 +70,7 @@ func unsup(format string, a ...any) { panic(unsupported{fmt.Sprintf(format, a...
 
 // VC accumulates the verification condition of one function under proof.
 type VC struct {
+	epochEq map[int][]string // epoch -> Boolean constants under which every heap of the epoch equals the entry heap
 	L         *Loaded
 	S         *Sorts
 	Top       *ssa.Function
@@ -354,6 +355,13 @@ func (vc *VC) preHeap(name string, epoch int) Term {
 	n := fmt.Sprintf("%s!e%d", name, epoch)
 	if _, ok := vc.declared[n]; !ok {
 		vc.declare(n, s)
+		// "__unchanged()" facts of this epoch: under each registered condition the heap equals the
+		// entry heap
+		if epoch != 0 {
+			for _, u := range vc.epochEq[epoch] {
+				vc.asserts = append(vc.asserts, fmt.Sprintf("(=> %s (= %s %s))", u, n, vc.preHeap(name, 0).S))
+			}
+		}
 	}
 	return Term{n, s}
 }
